@@ -111,9 +111,9 @@ Lemma eigen_post_bridge (vf : fvec R) :
 Proof. by rewrite /eigen_post /normalise ftr_bridge unstack_bridge. Qed.
 
 Lemma svd_post_bridge (vf : fvec R) :
-  let (Vf, d) := svd_post zero add (re conj) n vf in
-  d^-1 *: mx_of_fn n n Vf = svd_normalise conj (unvec (col_of_fn NN vf)).
-Proof. by rewrite /svd_post /svd_normalise ftr_bridge unstack_bridge. Qed.
+  let (Vf, d) := svd_post zero add n vf in
+  d^-1 *: mx_of_fn n n Vf = normalise (unvec (col_of_fn NN vf)).
+Proof. by rewrite /svd_post /normalise ftr_bridge unstack_bridge. Qed.
 
 Lemma power_post_bridge (vf : fvec R) :
   let (Sf, d) := power_post zero add conj n vf in
